@@ -51,7 +51,7 @@ def gen_schedules(ctx, n):
         steps = [None if rng.random() < p else rng.getrandbits(rng.randint(1, w)) for _ in range(L)]
         out.append((rng.getrandbits(rng.choice([1, 7, 8, 14, 35, 63, 64])), steps))
     while len(out) < n:
-        L = rng.choice([rng.randint(0, 40), rng.randint(0, 400), rng.randint(0, 3000 if ctx.tier == "thorough" else 700)])
+        L = rng.choice([rng.randint(0, 40), rng.randint(0, 400), rng.randint(0, 1500 if ctx.tier == "thorough" else 700)])
         w = rng.choice([1, 1, 1, 2, 3, 4, 7, 8, 9, 16, 17, 32, 33, 63, 64])
         p = rng.choice([0.0, 0.1, 0.5, 0.95, 1.0])
         steps = [None if rng.random() < p else rng.getrandbits(rng.randint(1, w)) for _ in range(L)]
@@ -70,7 +70,7 @@ def run(tier):
     if not ok:
         return ctx.finish()
 
-    n = 1500 if tier == "quick" else 12000
+    n = 1500 if tier == "quick" else 5000
     scheds = gen_schedules(ctx, n)
     ser_cases = ["ser %d %s" % (seed, show_steps(st)) for seed, st in scheds]
     mo, io, mism = ctx.differential("codec", ser_cases)
